@@ -272,11 +272,119 @@ pub fn scenario(r: &mut Report, c: &Case) {
     }
 }
 
+/// "... so the value is then held by at least one node able to serve it": real storing nodes, a sequence of
+/// puts on one node (immutable, announces, and a mutable key written at seq n, again at seq n with another
+/// value, identically once more, then at seq n + 1), and after every Ok a raw lookup of every storing node:
+/// at least one of them must serve exactly what that put carried.
+pub fn held_scenario(r: &mut Report, seed: u64) {
+    use super::net::*;
+    use super::srv::{sign_announce, verify};
+    r.eval();
+    let mut rng = Rng::new(seed);
+    let w = World::with_cfg(seed, NetCfg::default(), TraceLevel::Off);
+    let n = 1 + rng.usize(6);
+    let net = build_net(&w, n, 0, IpPlan::Private, false, &mut rng);
+    let writer = w.spawn(NodeSpec::client(Ipv4Addr::new(10, 200, 0, 9), &[net.boot])).expect("writer");
+    w.block_on(writer.adht.bootstrapped(), 120 * SEC);
+    let case = json!({"class":"held-by-a-serving-node","seed":seed.to_string(),"servers":n});
+    let signer = SigningKey::from_bytes(&rng.array::<32>());
+    let pk = signer.verifying_key().to_bytes();
+    let salt: Option<Vec<u8>> = if rng.bool() { Some(rng.blob(1, 12)) } else { None };
+    let seq0 = rng.below(100) as i64;
+    let (va, vb, vc) = (rng.blob(1, 40), rng.blob(1, 40), rng.blob(1, 40));
+    let imm = rng.blob(1, 900);
+    let ih = Id::from(rng.array::<20>());
+    let ts = w.unix_micros();
+    let sg = sign_announce(&signer, ih.as_bytes(), ts);
+    let steps: Vec<(&str, PutRequestSpecific)> = vec![
+        ("immutable", PutRequestSpecific::PutImmutable(PutImmutableRequestArguments { target: Id::from(immutable_target(&imm)), v: imm.clone().into_boxed_slice() })),
+        ("mutable seq n", PutRequestSpecific::PutMutable(PutMutableRequestArguments::from(MutableItem::new(&signer, &va, seq0, salt.as_deref()), None))),
+        ("mutable seq n, other value", PutRequestSpecific::PutMutable(PutMutableRequestArguments::from(MutableItem::new(&signer, &vb, seq0, salt.as_deref()), None))),
+        ("mutable seq n, identical again", PutRequestSpecific::PutMutable(PutMutableRequestArguments::from(MutableItem::new(&signer, &vb, seq0, salt.as_deref()), None))),
+        ("mutable seq n+1 with cas n", PutRequestSpecific::PutMutable(PutMutableRequestArguments::from(MutableItem::new(&signer, &vc, seq0 + 1, salt.as_deref()), Some(seq0)))),
+        ("announce_peer", PutRequestSpecific::AnnouncePeer(AnnouncePeerRequestArguments { info_hash: ih, port: 4555, implied_port: None })),
+        ("announce_signed_peer", PutRequestSpecific::AnnounceSignedPeer(AnnounceSignedPeerRequestArguments { info_hash: ih, t: ts, k: sg.k, sig: sg.sig })),
+    ];
+    let probe = w.raw(SocketAddrV4::new(Ipv4Addr::new(10, 200, 0, 77), 7777));
+    let mut tid = 0u32;
+    let mut ask = |w: &World, to: SocketAddrV4, build: &dyn Fn(&[u8]) -> Vec<u8>| -> Option<Krpc> {
+        tid += 1;
+        let t = tid.to_be_bytes();
+        while w.raw_recv(probe).is_some() {}
+        w.raw_send(probe, &build(&t), to);
+        let mut out = None;
+        w.run_until(2 * SEC, |w| {
+            while let Some((_, d)) = w.raw_recv(probe) {
+                if let Some(k) = Krpc::parse(&d.bytes) {
+                    if k.t == t {
+                        out = Some(k);
+                        return true;
+                    }
+                }
+            }
+            false
+        });
+        out
+    };
+    for (name, req) in steps {
+        let target = *req.target();
+        let want_mut: Option<(Vec<u8>, i64)> = match &req {
+            PutRequestSpecific::PutMutable(a) => Some((a.v.to_vec(), a.seq)),
+            _ => None,
+        };
+        let rx = put_raw(&writer.dht, req, None);
+        let res = w.block_on(async move { rx.recv_async().await }, 300 * SEC);
+        let ok = matches!(res, Some(Ok(Ok(_))));
+        r.count(if ok { "held_puts_ok" } else { "held_puts_not_ok" });
+        if !ok {
+            continue;
+        }
+        let id = [0x33u8; 20];
+        let mut served = 0;
+        for s in &net.nodes {
+            let hit = match name {
+                "immutable" => ask(&w, s.addr, &|t| q_get(t, &id, target.as_bytes(), None)).map(|k| k.res_bytes("v") == Some(&imm[..])).unwrap_or(false),
+                "announce_peer" => ask(&w, s.addr, &|t| q_get_peers(t, &id, ih.as_bytes(), false))
+                    .map(|k| k.res("values").and_then(|v| v.as_list()).map(|l| l.iter().filter_map(|b| b.as_bytes()).any(|b| b.len() == 6 && parse_addr(b) == SocketAddrV4::new(*writer.addr.ip(), 4555))).unwrap_or(false))
+                    .unwrap_or(false),
+                "announce_signed_peer" => ask(&w, s.addr, &|t| q_get_peers(t, &id, ih.as_bytes(), true))
+                    .map(|k| k.res("peers").and_then(|v| v.as_list()).map(|l| l.iter().filter_map(|b| b.as_bytes()).any(|b| b.len() == 104 && b[..32] == pk && u64::from_be_bytes(b[32..40].try_into().expect("8")) == ts)).unwrap_or(false))
+                    .unwrap_or(false),
+                _ => {
+                    let (v, seq) = want_mut.clone().expect("mutable");
+                    ask(&w, s.addr, &|t| q_get(t, &id, target.as_bytes(), None))
+                        .map(|k| k.res_bytes("v") == Some(&v[..]) && k.res("seq").and_then(|x| x.as_int()) == Some(seq as i128) && k.res_bytes("k") == Some(&pk[..]) && k.res_bytes("sig").map(|sig| verify(&pk, &crate::sha1::mutable_signable(seq, &v, salt.as_deref()), sig)).unwrap_or(false))
+                        .unwrap_or(false)
+                }
+            };
+            if hit {
+                served += 1;
+            }
+        }
+        r.count("held_checks");
+        if served == 0 {
+            r.violation(&format!("held/ok-but-no-node-serves-it/{}", name.replace(' ', "-").replace(',', "")), "put returned Ok but no storing node serves what it carried", case.clone(), json!({"step": name, "servers": n}));
+        }
+    }
+    r.nontrivial(mix(seed, 0x4e1d));
+    drop(writer);
+    drop(net);
+    w.shutdown();
+    for (thread, loc, msg) in crate::take_panics() {
+        r.violation(&format!("panic/{}", loc.replace("/repo/", "")), &format!("thread {thread} panicked: {msg}"), case.clone(), json!({}));
+    }
+}
+
 pub fn run(a: &Args) -> Report {
     let mut r = Report::new("C08");
     if let Some(path) = &a.replay {
         let v: Value = serde_json::from_str(&std::fs::read_to_string(path).unwrap_or_default()).unwrap_or_default();
         let c = &v["case"];
+        if c["class"].as_str() == Some("held-by-a-serving-node") {
+            let seed = c["seed"].as_str().and_then(|s| s.parse().ok()).unwrap_or(1);
+            super::guarded(&mut r, c.clone(), |r| held_scenario(r, seed));
+            return r;
+        }
         let pf = |s: &str| FATES.iter().find(|f| format!("{f:?}") == s).copied().unwrap_or(Fate::Ack);
         let case = Case {
             seed: c["seed"].as_str().and_then(|s| s.parse().ok()).unwrap_or(1),
@@ -296,6 +404,11 @@ pub fn run(a: &Args) -> Report {
         super::guarded(r, case_json(&case), |r| scenario(r, &case));
         r.count("scenarios");
     };
+    for _ in 0..(if a.quick() { 160 } else { 3200 }) / a.nshards.max(1) {
+        let seed = rng.u64();
+        super::guarded(&mut r, json!({"class":"held-by-a-serving-node","seed":seed.to_string()}), |r| held_scenario(r, seed));
+        r.count("held_scenarios");
+    }
     // exhaustive assignments for small replica sets
     let max_n = if a.quick() { 4 } else { 5 };
     let mut code = 0u64;
